@@ -113,6 +113,7 @@ def run(rep):
         for ch in ((0, 2) if rep.tier == "quick" else (0, 1, 2, 3)):
             runs.append(["burst", lib, ch, "k=%d" % (ch + 3 if ch else 7)])
     rt_common.impl_side(rep, PID, runs, lambda a, d: probe.oracle_burst(d, None if a[2] == 0 else a[2]))
+    rt_common.model_vs_probe(rep, PID, 'burst', [(lib, ch, {'k': (ch + 3 if ch else 7)}) for lib in gen_impl.LIBS for ch in (0, 1, 2)])
     rep.assumptions += ["channel primitives of std/tokio/async-channel behave as bounded FIFO queues of the stated capacity (Runtime/Actor.v `room`)",
                         "impl blocks inside the documented envelope (no typed self receivers, no cfg attributes on methods)"]
 
